@@ -26,7 +26,7 @@ PROPERTIES = {
         not_reached=[],
     ),
     "C08": dict(
-        modules=["relations"],
+        modules=["relations", "pruning"],
         level="proof",
         claim="bound extraction from requirement syntax is sound for every comparison operator and operand shape; relative-heading feasibility over-approximates; erosion/termination arithmetic",
         note="shapely buffer/intersection assumed exact set operations; equality of distributions with/without pruning not reached (only: no feasible position lost, none added)",
